@@ -3,7 +3,7 @@ import z3
 
 from ..cxx import model as M
 from ..cxx.contract import Contract, Loop, contract, sanity
-from ..cxx.model import KIND, NULL, PYNONE, ElemRef, NodeVal, Opaque, Ptr, PyObj, SpecObj
+from ..cxx.model import KIND, NULL, PYNONE, ElemRef, NodeVal, Opaque, OptNode, Ptr, PyObj, SpecObj
 
 K = KIND
 
@@ -259,6 +259,34 @@ class GetOneLevel(Contract):
                 ('inherits-flags', z3.And(spec.nil == this.nil, spec.ns == this.ns))]
 
 
+def _one_level_apply(self, eng, st, this, args, n):
+    """Call-site summary of GetOneLevel(node): its proved postcondition - a new treespec of arity+1 nodes: `arity` leaves and
+    a root that keeps the node's payload, with counts (arity+1, arity or 1 for a leaf node), flags inherited from `this`."""
+    line = n.get('line')
+    arg = args[0] if args else None
+    tspec = st.heap[(this or st.this).oid]
+    tv = st.heap[tspec.trav]
+    if isinstance(arg, (NodeVal, ElemRef)):
+        nv = eng.to_nodeval(st, arg)
+    elif isinstance(arg, OptNode):
+        back = tv.node_at(tv.len - 1)
+        nv = NodeVal(tuple((f, z3.If(arg.has, arg.node.get(f), back.get(f))) for f in M.NODE_FIELDS))
+    else:
+        nv = tv.node_at(tv.len - 1)
+    eng.oblige(st, 'III', 'call-pre:GetOneLevel:node-typed', node_typed(nv), line)
+    A = nv.get('arity')
+    out = M.NodeVec.symbolic(f'onelevel!{next(M._counter)}')
+    j = z3.Int('j!ol')
+    st.facts += [out.len == A + 1,
+                 z3.ForAll([j], z3.Implies(z3.And(0 <= j, j < A), z3.And(out.sel('kind', j) == K['Leaf'], out.sel('num_nodes', j) == 1,
+                                                                         out.sel('num_leaves', j) == 1, out.sel('arity', j) == 0)),
+                           patterns=[out.sel('kind', j)]),
+                 out.sel('num_nodes', A) == A + 1,
+                 out.sel('num_leaves', A) == z3.If(nv.get('kind') == K['Leaf'], 1, A)]
+    st.facts += [out.sel(f, A) == nv.get(f) for f in ('kind', 'arity', 'node_data', 'node_entries', 'custom', 'original_keys')]
+    return [(st, Ptr(st.alloc(SpecObj(st.alloc(out), tspec.nil, tspec.ns))))]
+
+
 TYPE_OF_KIND = {'None': 'py_NoneType', 'Tuple': 'py_tuple', 'List': 'py_list', 'Dict': 'py_dict',
                 'OrderedDict': 'py_ImportOrderedDict', 'DefaultDict': 'py_ImportDefaultDict', 'Deque': 'py_ImportDeque'}
 
@@ -277,6 +305,9 @@ def spec_type_of(n: NodeVal):
     for kn in TYPE_OF_KIND:
         e = z3.If(k == K[kn], builtin_type_const(kn), e)
     return e
+
+
+GetOneLevel.apply = _one_level_apply
 
 
 @contract
